@@ -19,8 +19,9 @@ OBJ = os.path.join(BUILD, "obj")
 NCPU = max(2, min(16, os.cpu_count() or 2))
 # A run against another checkout (VERIF_REPO=<scratch worktree>, used for seeded changes and mutants) must not
 # disturb the evidence, replays or scratch output of a run against /repo itself: it gets its own directories.
-ALT = os.path.realpath(REPO) != "/repo"
-ALT_TAG = ("-" + hashlib.sha256(os.path.realpath(REPO).encode()).hexdigest()[:8]) if ALT else ""
+# VF_TAG=<name> does the same for a run against /repo itself (development runs next to a registered run).
+ALT = os.path.realpath(REPO) != "/repo" or bool(os.environ.get("VF_TAG"))
+ALT_TAG = ("-" + hashlib.sha256((os.path.realpath(REPO) + "\0" + os.environ.get("VF_TAG", "")).encode()).hexdigest()[:8]) if ALT else ""
 EVID_DIR = os.path.join(BUILD, "alt" + ALT_TAG, "evidence") if ALT else os.path.join(ROOT, "evidence")
 REPLAY_DIR = os.path.join(BUILD, "alt" + ALT_TAG, "replays") if ALT else os.path.join(ROOT, "replays")
 
